@@ -154,6 +154,28 @@ func (r *Report) Sample(x any) {
 	}
 }
 func (r *Report) Violate(v Violation) {
+	// a replay keeps the whole input; very long outputs are cut to a window around the first difference
+	const keep = 1 << 16
+	if len(v.Impl) > keep || len(v.Oracle) > keep {
+		d := 0
+		for d < len(v.Impl) && d < len(v.Oracle) && v.Impl[d] == v.Oracle[d] {
+			d++
+		}
+		win := func(s string) string {
+			lo, hi := d-keep/2, d+keep/2
+			if lo < 0 {
+				lo = 0
+			}
+			if hi > len(s) {
+				hi = len(s)
+			}
+			if lo > hi {
+				lo = hi
+			}
+			return fmt.Sprintf("[%d bytes, first difference at %d, showing %d..%d]\n%s", len(s), d, lo, hi, s[lo:hi])
+		}
+		v.Impl, v.Oracle = win(v.Impl), win(v.Oracle)
+	}
 	if len(r.Violations) < 50 {
 		r.Violations = append(r.Violations, v)
 	}
